@@ -10,6 +10,10 @@ ingredients that hold for all inputs.
 -/
 import RichchkModel.Lemmas.PassThrough
 import RichchkModel.Lemmas.ChunkLemmas
+import RichchkModel.Lemmas.RichRoundTrip
+import RichchkModel.Lemmas.CodecLemmas
+import RichchkModel.GenCfg
+import RichchkModel.Props.C12
 namespace Richchk.Props.C03
 open Richchk
 
@@ -53,5 +57,79 @@ theorem c03_pass_through_fixed {cfg : RichCfg} {orders : Orders} {wmeta : List (
     (i : Nat) (hi : i < rich.length) (hj : i < out.length) (n p : Bytes)
     (hs : rich[i] = .pass (.unknown n p)) : out[i] = .unknown n p :=
   ((richEncode_positions he).2 i hi hj).1 n p hs
+
+/-! ### section transcoders: decode then encode is the identity on editor-form sections
+(the README's claim, section by section) -/
+
+theorem FlagCodec.decode_length (c : FlagCodec) (n : Nat) : (c.decode n).length = c.fields.length := by
+  simp [FlagCodec.decode]
+
+/-- **MRGN**: a table of the emitted size whose used records name their string by the last id of
+its text and use only the elevation bits the codec keeps is reproduced exactly -/
+theorem c03_mrgn_section_identity (cfg : RichCfg) (ctx : EncCtx) (recs : List (List Nat))
+    (hlen : recs.length = cfg.mrgnSlots) (hw : ∀ r ∈ recs, r.length = 6)
+    (hstr : ∀ r ∈ recs, idByStr ctx.texts (strById ctx.texts (r.getD 4 0)) = .ok (r.getD 4 0))
+    (hc : (cfg.flagsOf "mrgn_elevation").OK)
+    (hbits : ∀ r ∈ recs, r.getD 5 0 < 2 ^ (cfg.flagsOf "mrgn_elevation").fields.length) :
+    encodeMrgn cfg ctx (decodeMrgn cfg ctx.texts recs) = .ok recs :=
+  mrgn_rich_roundtrip cfg ctx recs hlen hw hstr (fun r hr => by
+    unfold elevationEncode elevationDecode
+    rw [flags_encode_decode _ hc, Nat.mod_eq_of_lt (hbits r hr)])
+
+/-- **UPRP**: 64 records whose owner byte is clear and whose flag words use only kept bits -/
+theorem c03_uprp_section_identity (cfg : RichCfg) (recs : List (List Nat))
+    (hlen : recs.length = cfg.cuwpSlots) (hw : ∀ r ∈ recs, r.length = 10)
+    (howner : ∀ r ∈ recs, r.getD 2 0 = 0)
+    (hc1 : (cfg.flagsOf "cuwp_valid_special").OK) (hc2 : (cfg.flagsOf "cuwp_valid_unit").OK)
+    (hc3 : (cfg.flagsOf "cuwp_unit").OK) (h6 : (cfg.flagsOf "cuwp_unit").fields.length = 6)
+    (hb1 : ∀ r ∈ recs, r.getD 0 0 < 2 ^ (cfg.flagsOf "cuwp_valid_special").fields.length)
+    (hb2 : ∀ r ∈ recs, r.getD 1 0 < 2 ^ (cfg.flagsOf "cuwp_valid_unit").fields.length)
+    (hb3 : ∀ r ∈ recs, r.getD 8 0 < 2 ^ (cfg.flagsOf "cuwp_unit").fields.length) :
+    encodeUprp cfg (decodeUprp cfg recs) = recs :=
+  uprp_rich_roundtrip cfg recs hlen hw howner
+    (fun r hr => by rw [flags_encode_decode _ hc1, Nat.mod_eq_of_lt (hb1 r hr)])
+    (fun r hr => by rw [flags_encode_decode _ hc2, Nat.mod_eq_of_lt (hb2 r hr)])
+    (fun r hr => by rw [flags_encode_decode _ hc3, Nat.mod_eq_of_lt (hb3 r hr)])
+    (fun n => by rw [FlagCodec.decode_length, h6])
+
+/-- **WAV**: every entry referencing its path by the last id of that text -/
+theorem c03_wav_section_identity (cfg : RichCfg) (ctx : EncCtx) (ids : List Nat)
+    (hlen : ids.length = cfg.wavSlots)
+    (hstr : ∀ v ∈ ids, idByStr ctx.texts (strById ctx.texts v) = .ok v) :
+    encodeWav cfg ctx ((List.range ids.length).filterMap fun i =>
+      if ids.getD i 0 ≠ 0 then some (⟨strById ctx.texts (ids.getD i 0), i⟩ : RWav) else none) = .ok ids :=
+  wav_rich_roundtrip cfg ctx ids hlen hstr
+
+/-! the same, for the configuration regenerated from the source (`richCfg`): the abstract
+hypotheses become concrete numbers -/
+
+theorem generated_codec_facts :
+    (richCfg.flagsOf "mrgn_elevation").OK ∧ (richCfg.flagsOf "mrgn_elevation").fields.length = 6 ∧
+    (richCfg.flagsOf "cuwp_valid_special").OK ∧ (richCfg.flagsOf "cuwp_valid_special").fields.length = 6 ∧
+    (richCfg.flagsOf "cuwp_valid_unit").OK ∧ (richCfg.flagsOf "cuwp_valid_unit").fields.length = 7 ∧
+    (richCfg.flagsOf "cuwp_unit").OK ∧ (richCfg.flagsOf "cuwp_unit").fields.length = 6 ∧
+    richCfg.mrgnSlots = 255 ∧ richCfg.cuwpSlots = 64 ∧ richCfg.wavSlots = 512 := by
+  decide +kernel
+
+/-- a 255-slot MRGN with elevation words below 64 and last-id name references is rewritten
+byte-identically by the code as it is now -/
+theorem c03_mrgn_identity_generated (ctx : EncCtx) (recs : List (List Nat))
+    (hlen : recs.length = 255) (hw : ∀ r ∈ recs, r.length = 6)
+    (hstr : ∀ r ∈ recs, idByStr ctx.texts (strById ctx.texts (r.getD 4 0)) = .ok (r.getD 4 0))
+    (hbits : ∀ r ∈ recs, r.getD 5 0 < 64) :
+    encodeMrgn richCfg ctx (decodeMrgn richCfg ctx.texts recs) = .ok recs := by
+  obtain ⟨h1, h2, _, _, _, _, _, _, h9, _, _⟩ := generated_codec_facts
+  exact c03_mrgn_section_identity richCfg ctx recs (by rw [h9]; exact hlen) hw hstr h1
+    (fun r hr => by rw [h2]; exact hbits r hr)
+
+/-- a 64-slot UPRP with owner bytes clear, validity words below 64 / 128 and state word below 64 -/
+theorem c03_uprp_identity_generated (recs : List (List Nat))
+    (hlen : recs.length = 64) (hw : ∀ r ∈ recs, r.length = 10) (howner : ∀ r ∈ recs, r.getD 2 0 = 0)
+    (hb1 : ∀ r ∈ recs, r.getD 0 0 < 64) (hb2 : ∀ r ∈ recs, r.getD 1 0 < 128) (hb3 : ∀ r ∈ recs, r.getD 8 0 < 64) :
+    encodeUprp richCfg (decodeUprp richCfg recs) = recs := by
+  obtain ⟨_, _, h3, h4, h5, h6, h7, h8, _, h10, _⟩ := generated_codec_facts
+  exact c03_uprp_section_identity richCfg recs (by rw [h10]; exact hlen) hw howner h3 h5 h7 h8
+    (fun r hr => by rw [h4]; exact hb1 r hr) (fun r hr => by rw [h6]; exact hb2 r hr)
+    (fun r hr => by rw [h8]; exact hb3 r hr)
 
 end Richchk.Props.C03
